@@ -1132,6 +1132,9 @@ impl World for GraphWorld {
             let i = w.node(*p);
             w.observe_real(&i);
         }
+        for n in prog.start_on_update.iter() {
+            let _ = w.step(&Act::OnUpdate(*n), false);
+        }
         if !prog.start_observed.is_empty() {
             for n in prog.start_observed.iter() {
                 let _ = w.step(&Act::Observe(*n), false);
